@@ -127,20 +127,14 @@ def transposeT (t : Table α) : Except Err (Table α) :=
 
 def copy (t : Table α) : Except Err (Table α) := ctor t
 
-/-- Python `max` of a list of lengths: `ValueError` on an empty list -/
-def maxLen : List Id → Except Err Nat
-  | [] => .error .value
-  | s :: rest => .ok (rest.foldl (fun m x => max m x.length) s.length)
+/-- `max([len(x) for x in xs], default=0)` -/
+def maxLen (l : List Id) : Nat := l.foldl (fun m x => max m x.length) 0
 
-/-- `'U%d' % max_str_len`: the width of the freshly allocated ID array (numpy makes `U0` one wide) -/
-def idWidth (m : List (Id × Id)) (ids : List Id) (strict : Bool) : Except Err Nat :=
-  match maxLen (m.map (·.2)) with
-  | .error e => .error e
-  | .ok w =>
-    if strict then .ok (max w 1)
-    else match maxLen ids with
-      | .error e => .error e
-      | .ok w' => .ok (max (max w w') 1)
+/-- `'U%d' % max(max_str_len, 1)`: the width of the freshly allocated ID array — the longest new ID
+(0 for an empty `id_map`), also the longest old ID when old IDs may be retained, at least 1 -/
+def idWidth (m : List (Id × Id)) (ids : List Id) (strict : Bool) : Nat :=
+  let w := maxLen (m.map (·.2))
+  max (if strict then w else max w (maxLen ids)) 1
 
 /-- storing a string into a `U<w>` slot keeps its first `w` code points -/
 def fit (w : Nat) (s : Id) : Id := if s.length ≤ w then s else String.ofList (s.toList.take w)
@@ -175,27 +169,24 @@ structure Out (α : Type) where
   sortArg : Option (List Id) := none
 
 def updateIds (t : Table α) (m : List (Id × Id)) (ax : Axis) (strict inplace : Bool) : Out α :=
-  match idWidth m (t.ids ax) strict with
+  match relabel m strict (idWidth m (t.ids ax) strict) (t.ids ax) with
   | .error e => { result := .error e, after := t }
-  | .ok w =>
-    match relabel m strict w (t.ids ax) with
-    | .error e => { result := .error e, after := t }
-    | .ok ids' =>
-      if inplace then
-        if !distinct ids' then { result := .error .tableException, after := t }
-        else
-          let r := setIds t ax ids'
-          match errcheck r with
-          | .error e => { result := .error e, after := r, same := true }
-          | .ok _ => { result := .ok r, after := r, same := true }
+  | .ok ids' =>
+    if inplace then
+      if !distinct ids' then { result := .error .tableException, after := t }
       else
-        match copy t with
+        let r := setIds t ax ids'
+        match errcheck r with
+        | .error e => { result := .error e, after := r, same := true }
+        | .ok _ => { result := .ok r, after := r, same := true }
+    else
+      match copy t with
+      | .error e => { result := .error e, after := t }
+      | .ok c =>
+        let r := setIds c ax ids'
+        match errcheck r with
         | .error e => { result := .error e, after := t }
-        | .ok c =>
-          let r := setIds c ax ids'
-          match errcheck r with
-          | .error e => { result := .error e, after := t }
-          | .ok _ => { result := .ok r, after := t }
+        | .ok _ => { result := .ok r, after := t }
 
 inductive Op where
   | sortOrder (order : List Id) (ax : Axis)
@@ -340,7 +331,6 @@ def updateIdsClauses (t : Table α) (m : List (Id × Id)) (ax : Axis) (strict in
   let masked := collide && !inplace && ((t.ids ax.other).isEmpty || ids.isEmpty)
   let refused := !isOk o.result
   [("receiver.valid", valid t),
-   ("degenerate_map_not_a_crash", !(m.isEmpty || (!strict && ids.isEmpty)) || !isErr o.result .value),
    ("refuse.missing_key_when_strict", !missing || isErr o.result .tableException),
    ("refuse.non_injective", missing || !collide || masked || isErr o.result .tableException),
    ("accept", missing || collide || isOk o.result),
@@ -363,12 +353,6 @@ def clauses (t : Table α) (op : Op) (o : Out α) : Clauses :=
   | .updateIds m ax strict inplace => updateIdsClauses t m ax strict inplace o
 
 def holds (t : Table α) (op : Op) (o : Out α) : Bool := (clauses t op o).all (·.2)
-
-/-- calls outside this guard make the code raise `ValueError` from `max([])` (empty `id_map`, or
-`strict=False` on an axis without IDs); the theorems about `update_ids` carry it as a hypothesis -/
-def nondegenerate (t : Table α) : Op → Bool
-  | .updateIds m ax strict _ => !(m.isEmpty || (!strict && (t.ids ax).isEmpty))
-  | _ => true
 
 def firstFailing (cs : Clauses) : Option String := (cs.find? (fun c => !c.2)).map (·.1)
 
@@ -439,7 +423,7 @@ def handle (req : Json) : R Json := do
   let agree := resultAgrees mo.result obs.result && decide (mo.after = obs.after) &&
     mo.same == obs.same && mo.sortArg == obs.sortArg
   pure (Json.mkObj (verdictToJson (firstFailing cs) ++
-    [("agree", .bool agree), ("guard", .bool (nondegenerate t op)), ("model", outToJson mo), ("model_holds", .bool (holds t op mo)),
+    [("agree", .bool agree), ("model", outToJson mo), ("model_holds", .bool (holds t op mo)),
      ("model_clause", optToJson Json.str (firstFailing (clauses t op mo)))]))
 
 end Biom.C06
